@@ -105,35 +105,36 @@ impl Handler for VsockDev {
                 if c.writable_len() != 0 {
                     self.errors.push(format!("transmit chain has device-writable parts: {:?}", c.elems));
                 }
+                // The device must not depend on how the driver splits a packet over descriptors
+                // (VirtIO 1.2 §2.7.4.2): the packet is the concatenation of the device-readable
+                // parts, its first 44 bytes the header, the rest the payload.
                 let rd: Vec<_> = c.elems.iter().filter(|e| !e.write).collect();
-                if rd.is_empty() || rd[0].len != 44 {
-                    self.errors.push(format!("first element of a transmit chain must be the 44-byte header: {:?}", c.elems));
+                let total: usize = rd.iter().map(|e| e.len as usize).sum();
+                if total < 44 {
+                    self.errors.push(format!("transmit chain shorter than the 44-byte header: {:?}", c.elems));
                     qs.complete_len(w, 1, &c, 0);
                     return;
                 }
-                let h = match w.hal.dev_read(rd[0].addr, 44) {
-                    Ok(h) => h,
-                    Err(m) => {
-                        self.errors.push(m);
-                        qs.complete_len(w, 1, &c, 0);
-                        return;
-                    }
-                };
-                let mut p = Pkt::parse(&h);
-                let wire: usize = rd[1..].iter().map(|e| e.len as usize).sum();
-                p.wire_len = wire;
-                let mut left = self.keep;
-                for e in &rd[1..] {
+                let mut stream: Vec<u8> = Vec::new();
+                let mut left = 44 + self.keep;
+                for e in &rd {
                     if left == 0 {
                         break;
                     }
                     let n = (e.len as usize).min(left);
                     match w.hal.dev_read(e.addr, n) {
-                        Ok(d) => p.payload.extend_from_slice(&d),
-                        Err(m) => self.errors.push(m),
+                        Ok(d) => stream.extend_from_slice(&d),
+                        Err(m) => {
+                            self.errors.push(m);
+                            stream.extend(core::iter::repeat(0).take(n));
+                        }
                     }
                     left -= n;
                 }
+                let mut p = Pkt::parse(&stream[..44]);
+                let wire = total - 44;
+                p.wire_len = wire;
+                p.payload.extend_from_slice(&stream[44..]);
                 if p.len as usize != wire {
                     self.errors.push(format!("header len {} but {} payload bytes on the wire", p.len, wire));
                 }
